@@ -1,7 +1,14 @@
 """C13: pool shutdown and iv_thread lifetime. Same T-sched harness, Lean LTS and driver as C12 (shared code in c12.py);
 the scenario families put pools at setup / in completions / in timers / at quiescence (with immediate re-creation in
-the same structure) and create iv_threads in every exit mode; the oracle part that matters here: drain after put,
-thread_start/thread_stop pairing per worker, every created thread joined, pool events released, iv_main returns."""
+the same structure), create iv_threads in every exit mode, and let creators leave their loop (iv_quit) and deinitialise
+while threads they created are alive / have just exited / have been joined; the oracle part that matters here: drain
+after put, thread_start/thread_stop pairing per worker, every created thread joined or handed over, pool events
+released, iv_main returns, no post to a deinitialised loop.
+In addition the free-running program harness/tsan_thread_deinit.c (real threads, real kernel: creators that quit and
+deinitialise with children in every state, all exit modes) is run under ASan+LeakSanitizer (quick and thorough) and
+under ThreadSanitizer (thorough): use-after-free, leaked thread records and data races between the exiting child and
+the creator's tear-down."""
+import os, re, subprocess
 from . import common
 from . import c12
 
@@ -9,15 +16,88 @@ PROP = "C13"
 LEANCHECK_MODULES = ["Ivy.L3.Work", "Ivy.L3.WorkSpec", "Ivy.L3.WorkProofs", "Ivy.Props.C13"]
 build = c12.build
 oracle = c12.oracle
+PROG_SRC = os.path.join(common.VERIF, "harness", "tsan_thread_deinit.c")
+TSAN_FLAGS = ["-O1", "-g", "-fsanitize=thread"]
+# one-way flags exempt by the C14 property statement
+TSAN_EXEMPT = {"inited", "eventfd_in_use", "epoll_support", "epoll_pwait2_support", "iv_event_use_event_raw", "timerfd_support",
+               "splice_available", "pipe2_support", "clock_source", "method", "iv_thread_debug", "iv_state_key_allocated", "sig_owner_pid"}
+
+
+def build_prog(kind):
+    flags = TSAN_FLAGS if kind == "tsan" else list(common.SAN)
+    ok, objs, log = common.build_lib(flags=flags, tag="tsan" if kind == "tsan" else "asan")
+    if not ok:
+        return None, log
+    exe = os.path.join(common.BUILD, f"thread_deinit_{kind}")
+    r = common.sh(["gcc"] + flags + common.CFLAGS_COMMON + [f"-I{common.VERIF}/harness", "-o", exe, PROG_SRC] + objs + ["-lpthread"])
+    return (exe if r.returncode == 0 else None), r.stdout
+
+
+def run_prog(exe, kind, seed, excl):
+    env = dict(os.environ, ASAN_OPTIONS="detect_leaks=1", TSAN_OPTIONS="halt_on_error=0")
+    if excl:
+        env["IV_EXCLUDE_POLL_METHOD"] = excl
+    else:
+        env.pop("IV_EXCLUDE_POLL_METHOD", None)
+    try:
+        r = subprocess.run([exe, str(seed), "4", "300", "3"], stdout=subprocess.PIPE, stderr=subprocess.PIPE, text=True, timeout=120, env=env)
+        out, err, rc = r.stdout, r.stderr, r.returncode
+    except subprocess.TimeoutExpired:
+        return [("deinit-program:timeout", "free-running program did not finish (deadlock?)")], ""
+    v = []
+    if kind == "tsan":
+        for blk in err.split("=================="):
+            if "WARNING: ThreadSanitizer" in blk:
+                m = re.search(r"Location is global '(\w+)'", blk)
+                if m and m.group(1) in TSAN_EXEMPT:
+                    continue
+                sm = next((l for l in blk.splitlines() if l.startswith("SUMMARY")), "SUMMARY ?")
+                fn = sm.split(" in ")[-1].strip()
+                thr = "iv_thread" in blk and ("iv_thread_destructor" in blk or "iv_thread_tls_deinit_thread" in blk or "__iv_deinit" in blk)
+                v.append(("thread:creator-deinit-live-thread" if thr else "deinit-program:tsan:" + fn, "ThreadSanitizer: " + sm[:200]))
+    else:
+        if "AddressSanitizer" in err or "LeakSanitizer" in err or rc != 0:
+            s = common.san_line(err) or "exit %d" % rc
+            thr = "iv_thread_destructor" in err or "iv_thread_create" in err
+            fn = re.sub(r".* in (\S+).*", r"\1", next((l for l in err.splitlines() if "/src/iv_" in l and " in " in l), "?"))
+            v.append(("thread:creator-deinit-live-thread" if thr else "deinit-program:asan:" + fn, s[:200]))
+    return v, out
+
+
+def free_running(res, tier, seed):
+    plan = [("asan", 3 if tier == "quick" else 20)] + ([("tsan", 20)] if tier == "thorough" else [])
+    stats = {}
+    for kind, n in plan:
+        exe, log = build_prog(kind)
+        if exe is None:
+            res.divergences.append((f"harness/tsan_thread_deinit.c does not build ({kind}): {log[-300:]}", None))
+            continue
+        runs = bad = 0
+        for sd in range(seed * 100, seed * 100 + n):
+            for excl in (None, "epoll-timerfd epoll"):
+                v, out = run_prog(exe, kind, sd, excl)
+                runs += 1
+                if v:
+                    bad += 1
+                    if not any(s == f"c13:{v[0][0]}" for s, _, _ in res.impl_violations):
+                        case = f"# free-running program, no scenario file\n# {exe} {sd} 4 300 3   (IV_EXCLUDE_POLL_METHOD={excl})\n"
+                        res.impl_violations.append((f"c13:{v[0][0]}", f"implementation violates C13 (harness/tsan_thread_deinit.c, {kind}, seed {sd}): {v[0][1]}", case))
+                stats[kind] = {"runs": runs, "with_reports": bad, "last_stats": out.strip()[-160:]}
+        res.evaluations += runs
+    res.extra["free_running_thread_deinit"] = stats
 
 
 def run(tier, seed, proof):
     res = c12.run_prop(PROP, tier, seed, proof)
-    res.rule = c12.RULE
+    res.rule = c12.RULE + ("; plus creators leaving their loop with iv_quit (or never running it) and deinitialising while created threads are alive, "
+                           "just exited or joined; plus the free-running program tsan_thread_deinit.c under ASan/LSan (and TSan in the thorough tier)")
     res.assumptions = c12.ASSUMPTIONS + [
         "TLS destructors of an exiting thread all run (glibc: in key order, repeated while values remain): the loop-state destructor and iv_thread's destructor",
-        "pthread_join of an exited thread returns",
+        "pthread_join of an exited thread returns; pthread_detach of an exited, unjoined thread releases it",
+        "iv_thread_lock makes iv_thread_destructor and iv_thread_tls_deinit_thread atomic w.r.t. each other (checked: lock records in the log, TSan in the thorough tier)",
     ]
+    if proof["driver_ok"]:
+        free_running(res, tier, seed)
     return res
 
 
